@@ -18,6 +18,9 @@ CHECKS = {
  'C20': ('exploration', 'metamorphic runtime monitor in isolated worker processes: final observation per top-level field before and after trim.Files, re-parse/re-compile of the trimmed files, second trim must be a no-op; cue trim in place on a sample',
    '4k/60k generated packages (schema packages with implied/overriding/conflicting data, C01 programs augmented with copies of their own evaluated values, 1-3 files) + the trim testdata inputs.',
    'trim refuses packages with evaluation errors, so the "same errors" clause is exercised only through fields that stay incomplete. One recorded finding (not a fixpoint with duplicate declarations).', 'DESIGN.md §4 C20'),
+ 'C04': ('exploration', 'reference-model monitor over enumerated and sampled executions: an executable model of the spec value/default-pair rules (M0/M1, D0-D2, U0-U2) decides bottom-ness, probe acceptance, concreteness/ambiguity and the resolved default of each evaluated expression',
+   'Exhaustive depth-2 width-2 expressions over 6 leaves + all A & B over the depth-1 width<=3 expressions over {1,2,int} in quick (174k); all 11 leaves, width 3 and A & B & C in thorough; 10k/200k PRNG depth-3 expressions, half over small per-expression leaf pools (duplicate terms).',
+   'Three recorded findings are matched by model-defined expression classes; within them only default-related disagreement is tolerated (the static class must agree with a variant model exactly), value-set disagreement always alarms.', 'DESIGN.md §4 C04'),
  'C03': ('exploration', 'reference-model monitor over enumerated and sampled executions (set model of constraints vs evaluator, E and E&atom for every atom)',
    'Exhaustive for conjunctions of <=2 constraints over the full alphabet x every atom (|E|=3 numeric sub-alphabet in thorough), PRNG-sampled beyond, plus large-magnitude/high-precision bounds probed at +-1 ulp and predeclared ranges probed around their limits; a finite set model decides each observed evaluation. Universal only inside the enumerated sub-space.',
    'Trusts the 150-line set model (written from the statement/spec), Go regexp for =~, and cue.Value accessors used to read results back.', 'DESIGN.md §4 C03'),
